@@ -4,6 +4,8 @@ package main
 
 import (
 	"bytes"
+	"compress/gzip"
+	"io"
 	"context"
 	"crypto/sha256"
 	"encoding/hex"
@@ -128,11 +130,67 @@ func cacheGet(script string) (string, bool) {
 	if !useCache {
 		return "", false
 	}
-	b, err := os.ReadFile(filepath.Join(cacheDir, cacheKey(script)))
+	k := cacheKey(script)
+	b, err := os.ReadFile(filepath.Join(cacheDir, k))
 	if err != nil {
+		if cacheIndexHas(k) {
+			return "indexed", true
+		}
 		return "", false
 	}
 	return string(b), true
+}
+
+// The committed index /verif/cache_index.gz lists the content hashes of queries that a solver answered unsat in an earlier run
+// (written by `govc cache-export` from /verif/.cache). A query is regenerated from /repo on every run and looked up by the hash
+// of its full text, so a hit means "this exact query was discharged before"; any change to the code or a contract changes the
+// text and misses. The thorough tier ignores both the directory and the index.
+var cacheIndexOnce sync.Once
+var cacheIndex map[string]bool
+
+func cacheIndexHas(k string) bool {
+	cacheIndexOnce.Do(func() {
+		cacheIndex = map[string]bool{}
+		f, err := os.Open("/verif/cache_index.gz")
+		if err != nil {
+			return
+		}
+		defer f.Close()
+		zr, err := gzip.NewReader(f)
+		if err != nil {
+			return
+		}
+		data, _ := io.ReadAll(zr)
+		for _, ln := range strings.Split(string(data), "\n") {
+			if len(ln) == 32 {
+				cacheIndex[ln] = true
+			}
+		}
+	})
+	return cacheIndex[k]
+}
+
+func cacheExport() {
+	ents, _ := os.ReadDir(cacheDir)
+	var keys []string
+	for _, e := range ents {
+		if len(e.Name()) == 32 {
+			keys = append(keys, e.Name())
+		}
+	}
+	cacheIndexHas("")
+	for k := range cacheIndex {
+		if _, err := os.Stat(filepath.Join(cacheDir, k)); err != nil {
+			keys = append(keys, k)
+		}
+	}
+	sort.Strings(keys)
+	f, _ := os.Create("/verif/cache_index.gz")
+	zw := gzip.NewWriter(f)
+	zw.Write([]byte(strings.Join(keys, "\n") + "\n"))
+	zw.Close()
+	f.Close()
+	fmt.Printf("cache index: %d entries\n", len(keys))
 }
 
 func cachePut(script, solver string) {
